@@ -164,6 +164,17 @@ class Namespace:
         self.table = table
 
 
+def _native(fn, a, k):
+    """a method of a concrete Python value called with concrete arguments: what it raises is what the program raises;
+    with an abstract argument a failure is a gap of the model"""
+    try:
+        return fn(*a, **k)
+    except (TypeError, ValueError, IndexError, KeyError) as e:
+        if all(x is None or isinstance(x, (int, float, str, bytes, bool, tuple, list, dict, set, frozenset)) for x in list(a) + list(k.values())):
+            raise PyExc(type(e).__name__, str(e))
+        raise AnalysisError(f"peval: {getattr(fn, '__qualname__', fn)!s} with abstract arguments {a!r}: {e}")
+
+
 class SArr:
     """abstract ndarray: shape (ints) and a dict index-tuple -> value; or a symbolic block"""
 
@@ -220,6 +231,33 @@ class LiveEnum:
     def __init__(self, lst, start=0):
         self.lst = lst
         self.start = start
+
+
+_EXC_CHILDREN = {
+    "LookupError": {"IndexError", "KeyError"},
+    "ArithmeticError": {"ZeroDivisionError", "OverflowError", "FloatingPointError"},
+    "OSError": {"IOError", "EnvironmentError", "FileNotFoundError", "PermissionError", "FileExistsError", "IsADirectoryError", "NotADirectoryError", "TimeoutError", "ConnectionError", "BlockingIOError", "InterruptedError"},
+    "ValueError": {"UnicodeError", "UnicodeDecodeError", "UnicodeEncodeError", "UnicodeTranslateError"},
+    "UnicodeError": {"UnicodeDecodeError", "UnicodeEncodeError", "UnicodeTranslateError"},
+    "RuntimeError": {"RecursionError", "NotImplementedError"},
+    "ImportError": {"ModuleNotFoundError"},
+    "NameError": {"UnboundLocalError"},
+    "SyntaxError": {"IndentationError", "TabError"},
+    "Warning": {"UserWarning", "DeprecationWarning", "RuntimeWarning", "FutureWarning"},
+}
+_EXC_CHILDREN["IOError"] = _EXC_CHILDREN["EnvironmentError"] = _EXC_CHILDREN["OSError"] | {"OSError"}
+
+
+def _exc_matches(etype, handler_type):
+    """does `except <handler_type>` catch an exception of the class named etype? (builtin hierarchy; other classes by name)"""
+    et = etype.split(".")[-1].split("(")[0]
+    names = []
+    for n in (handler_type.elts if isinstance(handler_type, ast.Tuple) else [handler_type]):
+        names.append(norm(n).split(".")[-1])
+    for n in names:
+        if n in ("Exception", "BaseException") or n == et or et in _EXC_CHILDREN.get(n, ()):
+            return True
+    return False
 
 
 class PyExc(Exception):
@@ -282,6 +320,7 @@ class Interp:
         self.pytypes = {}
         self.builtins = self._mk_builtins()
         self.np = self._mk_np()
+        self._exc_stack = []  # exceptions being handled (innermost last): what a bare `raise` re-raises
         self.call_hooks = {}  # qualname -> python function(interp, args, kwargs) overriding a package function
         self.eq_oracle = None  # optional: Poly difference -> True (zero) / False (non-zero) / None
         self.order_oracle = None  # optional: Poly difference -> sign (-1/0/1) or None; decides comparisons of symbolic integers
@@ -363,6 +402,8 @@ class Interp:
                         elif al.name == "weakref":
                             found = Namespace("weakref", {"WeakKeyDictionary": Builtin("WeakKeyDictionary", lambda *a: {}), "WeakValueDictionary": Builtin("WeakValueDictionary", lambda *a: {}),
                                                           "WeakSet": Builtin("WeakSet", lambda *a: set()), "ref": Builtin("weakref.ref", lambda o, *a: Builtin("ref()", lambda: o))})
+                        elif al.name == "copy":
+                            found = Namespace("copy", {"copy": Builtin("copy.copy", self._copy_shallow), "deepcopy": Builtin("copy.deepcopy", self._copy_deep)})
                         elif al.name == "math":
                             import math as _m
 
@@ -426,6 +467,8 @@ class Interp:
                             found = Builtin("namedtuple", _nt)
                         elif st.module == "collections" and al.name == "OrderedDict":
                             found = Builtin("OrderedDict", lambda *a, **k: dict(*a, **k))
+                        elif st.module == "copy" and al.name in ("copy", "deepcopy"):
+                            found = Builtin(f"copy.{al.name}", self._copy_shallow if al.name == "copy" else self._copy_deep)
                         elif st.module == "itertools" and al.name == "count":
                             found = Builtin("itertools.count", lambda start=0, step=1: IterVal(count_from=start, step=step))
                         elif st.module == "itertools" and al.name == "product":
@@ -919,6 +962,12 @@ class Interp:
             raise _Return(self.eval(st.value, fr) if st.value is not None else None)
         if isinstance(st, ast.Raise):
             et, msg = "Exception", ""
+            if st.exc is None:
+                if self._exc_stack:
+                    raise self._exc_stack[-1]  # re-raise the exception being handled
+                raise PyExc("RuntimeError", "No active exception to reraise")
+            if isinstance(st.exc, ast.Name) and isinstance(fr.env.get(st.exc.id) if hasattr(fr.env, "get") else None, Obj) and "__pyexc__" in fr.env.get(st.exc.id).attrs:
+                raise fr.env.get(st.exc.id).attrs["__pyexc__"]
             if st.exc is not None:
                 if isinstance(st.exc, ast.Call):
                     et = norm(st.exc.func)
@@ -963,20 +1012,27 @@ class Interp:
             return
         if isinstance(st, ast.Try):
             try:
-                self.exec_block(st.body, fr)
-            except PyExc as e:
-                for h in st.handlers:
-                    names = norm(h.type) if h.type is not None else ""
-                    if h.type is None or e.etype in names or "Exception" in names:
-                        self.exec_block(h.body, fr)
-                        break
+                try:
+                    self.exec_block(st.body, fr)
+                except PyExc as e:
+                    for h in st.handlers:
+                        if h.type is None or _exc_matches(e.etype, h.type):
+                            if h.name:
+                                fr.env[h.name] = Obj("exception", {"args": (e.msg,), "__pyexc__": e}, name=e.etype.split(".")[-1])
+                            self._exc_stack.append(e)
+                            try:
+                                self.exec_block(h.body, fr)
+                            finally:
+                                self._exc_stack.pop()
+                            break
+                    else:
+                        raise
                 else:
-                    raise
-            else:
-                self.exec_block(st.orelse, fr)
+                    self.exec_block(st.orelse, fr)
             finally:
-                pass
-            self.exec_block(st.finalbody, fr)
+                # on every way out (normal, return / break / continue, an exception going up)
+                if st.finalbody:
+                    self.exec_block(st.finalbody, fr)
             return
         if isinstance(st, ast.With):
             hk = self.hooks.get("with")
@@ -985,6 +1041,53 @@ class Interp:
                 return
             raise AnalysisError(f"peval: unsupported with-statement `{norm(st)[:80]}`")
         raise AnalysisError(f"peval: unsupported statement {type(st).__name__}: `{norm(st)[:80]}`")
+
+    def _copy_shallow(self, v):
+        """copy.copy: a new object with the same attribute values / a new container with the same elements"""
+        if isinstance(v, Obj):
+            if v.kind != "instance" or self.getattr(v, "__copy__", default=None) is not None:
+                raise AnalysisError(f"peval: copy.copy of {v!r}")
+            return Obj(v.kind, dict(v.attrs), cls=v.cls, meta=v.meta, bases=v.bases, name=v.name)
+        if isinstance(v, (list, dict, set)):
+            return type(v)(v)
+        if isinstance(v, SArr):
+            return SArr(v.shape, dict(v.data), v.sym)
+        if v is None or isinstance(v, (int, float, str, bytes, tuple, bool, Sym)):
+            return v
+        raise AnalysisError(f"peval: copy.copy of {v!r}")
+
+    def _copy_deep(self, v, memo=None):
+        memo = {} if memo is None or not isinstance(memo, dict) else memo
+        if id(v) in memo:
+            return memo[id(v)]
+        if isinstance(v, Obj):
+            if v.kind != "instance" or self.getattr(v, "__deepcopy__", default=None) is not None:
+                raise AnalysisError(f"peval: copy.deepcopy of {v!r}")
+            o = Obj(v.kind, {}, cls=v.cls, meta=v.meta, bases=v.bases, name=v.name)
+            memo[id(v)] = o
+            for k, x in v.attrs.items():
+                o.attrs[k] = self._copy_deep(x, memo)
+            return o
+        if isinstance(v, list):
+            out = []
+            memo[id(v)] = out
+            out.extend(self._copy_deep(x, memo) for x in v)
+            return out
+        if isinstance(v, dict):
+            out = {}
+            memo[id(v)] = out
+            for k, x in v.items():
+                out[k] = self._copy_deep(x, memo)
+            return out
+        if isinstance(v, tuple):
+            return tuple(self._copy_deep(x, memo) for x in v)
+        if isinstance(v, set):
+            return set(v)
+        if isinstance(v, SArr):
+            return SArr(v.shape, {k: self._copy_deep(x, memo) for k, x in v.data.items()}, v.sym)
+        if v is None or isinstance(v, (int, float, str, bytes, bool, Sym)) or callable(v) or type(v).__name__ in ("ClassVal", "FuncVal", "Builtin", "Opaque"):
+            return v
+        raise AnalysisError(f"peval: copy.deepcopy of {v!r}")
 
     def assign(self, t, v, fr):
         if isinstance(t, ast.Name):
@@ -1005,8 +1108,25 @@ class Interp:
             else:
                 k = self.eval(t.slice, fr)
             if isinstance(c, SArr):
+                if k is Ellipsis:  # whole-array store: an array of the same shape, or one value for all
+                    if isinstance(v, SArr):
+                        if v.shape != c.shape:
+                            raise PyExc("ValueError", f"could not broadcast input array from shape {v.shape} into shape {c.shape}")
+                        for i in c.indices():
+                            if i in v.data:
+                                c.data[i] = v.data[i]
+                            else:
+                                c.data.pop(i, None)
+                    elif isinstance(v, (list, tuple)):
+                        raise AnalysisError("peval: whole-array store of a sequence")
+                    else:
+                        for i in c.indices():
+                            c.data[i] = v
+                    return
                 if isinstance(k, int):
                     k = (k,)
+                if not isinstance(k, tuple) or not all(isinstance(x, int) for x in k):
+                    raise AnalysisError(f"peval: array item store with index {k!r}")
                 c.data[tuple(k)] = v
             elif isinstance(c, (dict, list)):
                 c[k] = v
@@ -1478,11 +1598,11 @@ class Interp:
             if name == "setdefault":
                 return Builtin("dict.setdefault", lambda k, d=None: v.setdefault(k, d))
             if name == "pop":
-                return Builtin("dict.pop", lambda k, *d: v.pop(k, *d))
+                return Builtin("dict.pop", lambda k, *d: _native(v.pop, (k,) + d, {}))
             if name == "clear":
                 return Builtin("dict.clear", lambda: v.clear())
             if name == "popitem":
-                return Builtin("dict.popitem", lambda: v.popitem())
+                return Builtin("dict.popitem", lambda: _native(v.popitem, (), {}))
             if name == "__contains__":
                 return Builtin("dict.__contains__", lambda k: k in v)
         if isinstance(v, list):
@@ -1495,11 +1615,11 @@ class Interp:
             if name == "copy":
                 return Builtin("list.copy", lambda: list(v))
             if name == "remove":
-                return Builtin("list.remove", lambda x: v.remove(x))
+                return Builtin("list.remove", lambda x: _native(v.remove, (x,), {}))
             if name == "insert":
                 return Builtin("list.insert", lambda i, x: v.insert(i, x))
             if name == "pop":
-                return Builtin("list.pop", lambda *a: v.pop(*a))
+                return Builtin("list.pop", lambda *a: _native(v.pop, a, {}))
             if name == "clear":
                 return Builtin("list.clear", lambda: v.clear())
             if name == "reverse":
@@ -1514,7 +1634,7 @@ class Interp:
                 return Builtin("str.join", lambda it: v.join(str(x) if not isinstance(x, str) else x for x in self.iterate(it)))
             if name in ("endswith", "startswith", "upper", "lower", "strip", "split", "capitalize", "replace", "splitlines", "rstrip", "lstrip", "format", "find", "rfind", "rsplit", "partition", "rpartition", "index", "rindex",
                         "count", "encode", "isdigit", "isidentifier", "isalpha", "isalnum", "isspace", "title", "ljust", "rjust", "zfill", "center", "removeprefix", "removesuffix", "expandtabs", "casefold", "swapcase", "isupper", "islower"):
-                return Builtin(f"str.{name}", lambda *a, **k: getattr(v, name)(*a, **k))
+                return Builtin(f"str.{name}", lambda *a, **k: _native(getattr(v, name), a, k))
         if isinstance(v, (set, frozenset)):
             if name in ("union", "intersection", "difference", "symmetric_difference", "issubset", "issuperset", "isdisjoint", "copy"):
                 return Builtin(f"set.{name}", lambda *a, _m=getattr(v, name): _m(*[x if isinstance(x, (set, frozenset)) else self.iterate(x) for x in a]))
@@ -1731,7 +1851,8 @@ class Interp:
             "ValueError": Opaque("ValueError"),
             "TypeError": Opaque("TypeError"),
             "NotImplementedError": Opaque("NotImplementedError"),
-            "bytes": Builtin("bytes", lambda s, enc=None: Opaque(f"bytes({s!r})") if not isinstance(s, str) else s.encode(enc or "utf8")),
+            "bytearray": Builtin("bytearray", lambda s=b"", enc=None: bytearray(s.encode(enc or "utf8")) if isinstance(s, str) else bytearray(s) if isinstance(s, (bytes, bytearray)) or (isinstance(s, int) and not isinstance(s, bool)) else s if type(s).__name__ == "Snapshot" else Opaque(f"bytearray({s!r})")),
+            "bytes": Builtin("bytes", lambda s=b"", enc=None: s.encode(enc or "utf8") if isinstance(s, str) else bytes(s) if isinstance(s, (bytes, bytearray)) or (isinstance(s, int) and not isinstance(s, bool) and 0 <= s <= 1 << 20) else bytes(s) if isinstance(s, (list, tuple)) and all(isinstance(x, int) and not isinstance(x, bool) and 0 <= x < 256 for x in s) else s if type(s).__name__ == "Snapshot" else Opaque(f"bytes({s!r})")),
             "map": Builtin("map", lambda f, it: [I.call(f, [x], {}) for x in I.iterate(it)]),
             "isclass": Builtin("isclass", lambda x: isinstance(x, ClassVal) or (isinstance(x, Obj) and x.kind == "class")),
         }
